@@ -232,6 +232,8 @@ def decorate(rng, cat, allow_dash=True):
         s += '=' + str(rng.randint(1, 3))
     if 0.15 < r < 0.3:
         s += '-' + str(rng.randint(1, 9))
+    if r > 0.85 or 0.2 < r < 0.25:
+        s += "'"            # head mark, alone or after the other decorations
     return s
 
 
